@@ -51,6 +51,10 @@ class Timer:
         self.start_time = self.env.now
         self.timeout = timeout
         self.expire_time = self.start_time + timeout
-        if not self.proc.processed:
+        if self.proc is self.env.active_process:
+            # restarted from the timer's own callback: run() re-arms itself
+            # with the new expire_time when the callback returns
+            return
+        if self.proc.is_alive:
             self.proc.interrupt("restart timer")
             self.proc = self.env.process(self.run(self.env))
